@@ -101,6 +101,32 @@ def pipe_result_blocks(ctx, k):
             elif kind == 'enum' and rv['k'] == 'agg' and rv.get('adt') == ty:
                 v = [str(x['discr']) for x in F.adts[ty]['variants'] if x['name'] == rv.get('variant')]
                 v = v[0] if v else None
+            if v is None and rv['k'] == 'use' and rv['op']['k'] in ('copy', 'move') and not rv['op']['pl']['p']:
+                # `let keep = if .. { false } else { true }; return keep;`: the blocks that give the named temporary its literal value answer
+                x = rv['op']['pl']['l']
+                lits = []
+                okx = True
+                for bb2, b2 in enumerate(k.blocks):
+                    if b2['cleanup']:
+                        continue
+                    for s2 in b2['stmts']:
+                        if s2['k'] == 'assign' and not s2['pl']['p'] and s2['pl']['l'] == x:
+                            rv2 = s2['rv']
+                            v2 = None
+                            if kind == 'bool' and rv2['k'] == 'use' and rv2['op']['k'] == 'const':
+                                v2 = str(rv2['op'].get('val'))
+                            elif kind == 'enum' and rv2['k'] == 'agg' and rv2.get('adt') == ty:
+                                v2 = [str(x_['discr']) for x_ in F.adts[ty]['variants'] if x_['name'] == rv2.get('variant')]
+                                v2 = v2[0] if v2 else None
+                            if v2 is None:
+                                okx = False
+                            else:
+                                lits.append((bb2, v2))
+                if not okx or not lits:
+                    return None
+                for bb2, v2 in lits:
+                    (stop_blocks if v2 in stop else keep_blocks).add(bb2)
+                continue
             if v is None:
                 return None      # a result that is not a literal: not decided
             (stop_blocks if v in stop else keep_blocks).add(bb)
@@ -827,6 +853,44 @@ def c04_stop(ctx):
     return out
 
 
+def c04_private(ctx):
+    """The completion handshake of a blocked sync() belongs to that one call: the condition variable and the `ready` flag handed to the
+    lifetime-erased job are created by the call itself (a fresh Arc), never taken from a place that outlives it (a thread-local, a field,
+    a static).  A flag shared between calls is set by whichever call finishes first - a nested blocked sync on the same thread ends the
+    outer wait before the outer closure has run."""
+    out = []
+    R = 'ORD-C04-private'
+    sb = _fn(ctx, S + 'sync_background', R, out)
+    if not sb:
+        return out
+    key = 'sync_background|handshake-created-by-the-call'
+    sites = calls(sb, 'UnsafeJob::new_with_notification')
+    if len(sites) != 1 or len(sites[0][1]['args']) < 3:
+        out.append(undecided(R, key, 'UnsafeJob::new_with_notification call not found'))
+        return out
+    probs = []
+    for what, a in (('condition variable', sites[0][1]['args'][1]), ('ready flag', sites[0][1]['args'][2])):
+        e = sb.expr_of_operand(a)
+        def strip(x):
+            while x[0] == 'call' and x[1].endswith('::clone') and x[2]:
+                x = x[2][0]
+            return x
+        e = strip(e)
+        # the handshake objects bundled in a local struct / tuple built by this call: every shared pointer in the bundle is fresh
+        if e[0] in ('field', 'downcast') and expr_root(e)[0] == 'agg':
+            comps = [strip(c) for c in expr_root(e)[3]]
+            arcs = [c for c in comps if c[0] == 'call']
+            if arcs and all(c[1] == 'alloc::sync::Arc::new' for c in arcs):
+                e = arcs[0]
+        if not (e[0] == 'call' and e[1] == 'alloc::sync::Arc::new'):
+            probs.append('the %s is not a fresh Arc made by this call (%s)' % (what, render(e)[:60]))
+    if probs:
+        out.append(bad(R, key, '; '.join(probs) + ': the wait of this call can be ended by somebody else\'s completion, and sync() returns (or panics on its empty result slot) without having run its closure', fn=sb.name))
+    else:
+        out.append(ok(R, key, 'condition variable and ready flag are `Arc::new(..)` of this call; the flag starts false', fn=sb.name))
+    return out
+
+
 def c04_result(ctx):
     """sync returns its own closure's value: the result slot is private to the call, read once after completion, and an empty slot panics."""
     out = []
@@ -838,6 +902,9 @@ def c04_result(ctx):
         key = short(name)
         H = ctx.held(fn)
         takes = [(bb, t) for bb, t in calls(fn, 'core::option::Option::take') if 'sync.result' in H.held_at_term(bb)]
+        # `mem::replace(&mut *slot, None)` / `mem::take(&mut *slot)` empty the slot just the same
+        takes += [(bb, t) for bb, t in calls(fn, 'core::mem::take') + calls(fn, 'core::mem::replace')
+                  if 'sync.result' in H.held_at_term(bb) and 'Option<' in clean_ty(fn.local_ty(t['dest']['l'])) and (t['func'].get('fn') != 'core::mem::replace' or render(fn.expr_of_operand(t['args'][1])).endswith('None{}'))]
         exps = calls(fn, 'core::option::Option::expect') + calls(fn, 'core::option::Option::unwrap')
         if len(takes) != 1:
             out.append(bad(R, key, 'the result slot must be emptied exactly once (found %d takes)' % len(takes), fn=name))
@@ -851,12 +918,12 @@ def c04_result(ctx):
         created = any((t['func'].get('fn') or '').endswith('Mutex::new') for bb, t in fn.calls())
         # result of take flows into expect/unwrap, which produces the return value
         ret = render(fn.expr_of_local(0))
-        unwrapped = [1 for bb, t in exps if render(fn.expr_of_operand(t['args'][0])).startswith('take(')]
+        unwrapped = [1 for bb, t in exps if render(fn.expr_of_operand(t['args'][0])).startswith(('take(', 'replace('))]
         # `match slot.take() { Some(v) => v, None => panic!(..) }` is the same as expect(): the result is the Some payload of the take
-        if ret.startswith('(take(') and ret.endswith(' as Some).0'):
+        if ret.startswith(('(take(', '(replace(')) and ret.endswith(' as Some).0'):
             unwrapped = [1]
             ret = ret[1:]
-        if not created or not unwrapped or not ret.startswith('take('):
+        if not created or not unwrapped or not ret.startswith(('take(', 'replace(')):
             out.append(bad(R, key, 'the returned value is not `slot.take().expect(..)` of a slot created by this call (return value: %s)' % ret[:120], fn=name))
             continue
         # who writes the slot: only closures of this function
